@@ -116,6 +116,21 @@ impl Rec {
         }
     }
 
+    /// Attach text to the recorded event list WITHOUT touching the digest (used for
+    /// explanatory traces that exist only in replay mode, e.g. the explicit thread schedule).
+    pub fn note(&mut self, kind: &'static str, text: &str) {
+        if let Some(e) = self.events.as_mut() {
+            if e.len() < 20_000 {
+                let t: String = text.chars().take(4000).collect();
+                e.push(format!("- t={} {} {}", self.sim_time, kind, t));
+            }
+        }
+    }
+
+    pub fn recording(&self) -> bool {
+        self.events.is_some()
+    }
+
     /// Record an environment choice (part of the distinctness digest). `identity` tells
     /// whether the choice equals the default/fault-free behaviour.
     #[inline]
